@@ -32,7 +32,7 @@ def _mods():
 def _psds(d, rng, lead, D):
     cond = d.log10(0, 6)
     scale = d.log10(-6, 6) if d.bool() else 1.0
-    phi_nn = gen.vary(d, gen.hpd(rng, D, cond, scale, lead), 101)
+    phi_nn = gen.vary(d, gen.structure(d, gen.hpd(rng, D, cond, scale, lead), 121), 101)
     tk = d.choice(['full', 'lowrank', 'rank1'])
     if tk == 'full':
         phi_xx = gen.vary(d, gen.hpd(rng, D, d.log10(0, 4), scale * 10 ** rng.uniform(-2, 2), lead), 102)
@@ -51,6 +51,25 @@ def _psds(d, rng, lead, D):
             phi_xx = (a @ np.swapaxes(a.conj(), -1, -2)).real * scale
         if dt == 'real-both':
             phi_nn = gen.spd(rng, D, cond, scale, lead)
+    if d.epoch >= 3 and d.aux(122).integers(0, 8) == 0:
+        # exactly structured matrices with small integer entries (a target
+        # p v v^T + q I with v in {-1, 0, 1}^D - e.g. two sensors exactly out of
+        # phase - and noise s I + r (J - I)): eigenvectors with entries that are
+        # exactly equal, opposite or zero
+        aux = d.aux(123)
+        v = aux.integers(-1, 2, size=(*lead, D)).astype(float)
+        v[..., 0] = 1.0
+        p_, q_ = float(aux.integers(1, 5)), float(aux.integers(0, 3))
+        eye = np.eye(D)
+        phi_xx = (p_ * v[..., :, None] * v[..., None, :] + q_ * eye).astype(np.complex128)
+        r_ = float(aux.integers(0, 2))
+        s_ = float(aux.integers(1, 4)) + r_ * D
+        phi_nn = np.broadcast_to(s_ * eye + r_ * (np.ones((D, D)) - eye),
+                                 (*lead, D, D)).astype(np.complex128).copy()
+        tk = 'rank1' if q_ == 0 else 'full'
+        a = v[..., :, None].astype(np.complex128) if q_ == 0 else None
+        cond = float(np.linalg.cond(phi_nn.reshape(-1, D, D)[0]))
+        scale = 1.0
     return phi_xx, phi_nn, tk, cond, scale, a
 
 
